@@ -173,6 +173,31 @@ class IntStr:
             return [(st, r if isinstance(op, _ast.Eq) else z_not(r))]
         raise OutOfReach("ordering of int strings")
 
+    def pyvc_isinstance(self, t):
+        return t in (str, object)
+
+    def pyvc_int(self, E, st, node):
+        return self.term
+
+    def pyvc_float(self, E, st, node):
+        return z3.ToReal(self.term) if z3.is_int(self.term) else self.term
+
+    def pyvc_truth(self, E, st):
+        return [(st, True)]
+
+    def pyvc_contains(self, E, item, st):
+        if isinstance(item, str) and item and any(c not in "0123456789-" for c in item):
+            return [(st, False)]
+        raise OutOfReach("membership test on an int string")
+
+    def pyvc_binop(self, E, op, other, st, swapped):
+        from .strings import Text
+        return Text([self]).pyvc_binop(E, op, other, st, swapped)
+
+    def pyvc_attr(self, E, name, st):
+        from .strings import Text
+        return Text([self]).pyvc_attr(E, name, st)
+
 
 class SymNS:
     """A small namespace object with (symbolic) attributes."""
